@@ -31,6 +31,7 @@ func C08(r *core.Run) {
 	rule123(r, ctx)
 	rule069(r)
 	rule0112(r, "C08")
+	rule0113(r)
 }
 
 // storingCall finds the call that hands the upload to storage in a handler.
